@@ -122,6 +122,18 @@ CHECKS = {
         "watchdog and counted as out of domain.",
         "DESIGN.md section 4 / C13",
     ),
+    "C01": (
+        "exploration",
+        "E1",
+        "bounded exhaustive enumeration of matrix families x data vectors x both residual functions; per-instance "
+        "optimality certificate (orthogonality / KKT, brute force over support sets, lstsq cross-check)",
+        "Every n-subset of a rate ladder with near-collinear neighbours, IRF-convolved columns from the real kernel, "
+        "oscillation pairs, prescribed-condition matrices up to 1e10 and degenerate shapes are solved with both "
+        "functions for in-range, orthogonal, generic, zero and rescaled data; the certificate decides optimality "
+        "against all competing clp vectors at once; the dispatch table is bound through EstimationProvider.",
+        "Finite grids; SciPy nnls failures (max iterations / singular normal equations) are counted as out of domain.",
+        "DESIGN.md section 4 / C01",
+    ),
 }
 
 PENDING_REASON = "check under construction in this round - not claimed until its check runs clean on the unchanged tree"
@@ -162,7 +174,7 @@ def main():
             "add_only": True,
         },
         "engines": [
-            {"name": "E1", "path": "vf/core.py", "serves_properties": ["C02", "C03", "C08", "C09", "C11", "C13"], "kind_free_text": "bounded exhaustive input-space enumeration with reference oracles, 16 workers"},
+            {"name": "E1", "path": "vf/core.py", "serves_properties": ["C01", "C02", "C03", "C08", "C09", "C11", "C13"], "kind_free_text": "bounded exhaustive input-space enumeration with reference oracles, 16 workers"},
             {"name": "E2", "path": "vf/explore.py", "serves_properties": ["C10", "C12", "C19"], "kind_free_text": "explicit-state BFS over event histories replayed on fresh real objects, full-state digests"},
             {"name": "E3", "path": "vf/checks/c15.py", "serves_properties": ["C15"], "kind_free_text": "deviation-bounded fault enumerator (all single / pairs of deviations from the fault-free environment), forked watchdog"},
             {"name": "E5", "path": "vf/prange.py", "serves_properties": ["C10"], "kind_free_text": "partial-order (conflict relation) exploration of numba prange kernels on py_func with recording array proxies"},
